@@ -28,12 +28,17 @@ theorem pmNewPeriod_rel (P : Params) {τ σ : State} (h : SRel τ σ) (e : Thres
   rcases (atRound_rel2 (S := Eq) P σ.pl h.rounds hr 0
     (f := fun rr => rr.newPeriod σ.pl (if e.kind = 3 then e.period + 1 else e.period) e.proposal)
     (fun x y hxy => erel2_of_erel (newPeriod_rel hxy σ.pl _ _))).cases with ⟨e₁, e₂, h1, h2⟩ | ⟨a, b, u, w, h1, h2, hab, _⟩
-  · rw [show (⟨τ.root.rounds⟩ : Root) = τ.root from rfl, show (⟨σ.root.rounds⟩ : Root) = σ.root from rfl] at h1 h2
-    rw [h1, h2]; trivial
-  · rw [show (⟨τ.root.rounds⟩ : Root) = τ.root from rfl, show (⟨σ.root.rounds⟩ : Root) = σ.root from rfl] at h1 h2
-    rw [h1, h2]
+  · rw [h1, h2]; trivial
+  · rw [h1, h2]
     cases u; cases w
     exact SRel.mk rfl hab
+
+theorem pmNewPeriod_pl {P : Params} {σ σ' : State} {e : Thresh} (h : pmNewPeriod P σ e = .ok σ') : σ'.pl = σ.pl := by
+  unfold pmNewPeriod at h
+  simp only [] at h
+  split at h
+  · cases h
+  · simp only [Except.ok.injEq] at h; rw [← h]
 
 theorem pmThreshold_rel (P : Params) {τ σ : State} (h : SRel τ σ) (rt : Nat) (e : Thresh) :
     ERel SRel (pmThreshold P τ rt e) (pmThreshold P σ rt e) := by
@@ -67,16 +72,256 @@ theorem pmThreshold_rel (P : Params) {τ σ : State} (h : SRel τ σ) (rt : Nat)
       have hr' : e.round ≥ b.pl.round := by
         have : b.pl = σ.pl := by
           split at h2
-          · sorry
+          · exact pmNewPeriod_pl (σ := { pl := σ.pl, root := Root.upd P σ.pl σ.root rt }) h2
           · simp only [Except.ok.injEq] at h2; rw [← h2]
         rw [this]; exact hr
       rcases (atRound_rel2 (S := Eq) P b.pl hab.rounds hr' e.period (f := fun rr => rr.threshold b.pl e)
         (fun x y hxy => erel2_of_erel (threshold_rel hxy b.pl e))).cases with ⟨e₁, e₂, g1, g2⟩ | ⟨a', b', u, w, g1, g2, hab', huw⟩
-      · rw [show (⟨a.root.rounds⟩ : Root) = a.root from rfl, show (⟨b.root.rounds⟩ : Root) = b.root from rfl] at g1 g2
-        rw [g1, g2]; exact ERel.err
-      · rw [show (⟨a.root.rounds⟩ : Root) = a.root from rfl, show (⟨b.root.rounds⟩ : Root) = b.root from rfl] at g1 g2
-        rw [g1, g2]
+      · rw [g1, g2]; exact ERel.err
+      · rw [g1, g2]
         subst huw
-        exact ERel.ok (SRel.mk hab.pl hab')
+        exact ERel.ok (SRel.mk rfl hab')
+
+theorem pmNewRound_rel (P : Params) {τ σ : State} (h : SRel τ σ) {target : Nat} (hr : target ≥ σ.pl.round) :
+    ERel SRel (pmNewRound P τ target) (pmNewRound P σ target) := by
+  unfold pmNewRound
+  simp only []
+  have h0 := h.updRoot P target
+  rw [h.pl] at h0 ⊢
+  rcases (atRound_rel2 (S := Eq) P σ.pl h0.rounds hr 0 (f := fun rr => rr.newRound σ.pl)
+    (fun x y hxy => erel2_of_erel (newRound_rel hxy σ.pl))).cases with ⟨e₁, e₂, h1, h2⟩ | ⟨a, b, u, w, h1, h2, hab, huw⟩
+  · rw [h1, h2]; exact ERel.err
+  · rw [h1, h2]; subst huw; exact ERel.ok (SRel.mk rfl hab)
+
+/-- answers of the proposalManager to a verified proposal-vote agree up to the late-credential note -/
+def PMVote.sim : PMVote → PMVote → Prop
+  | .filtered n, .filtered m => n = m ∨ ((n = 0 ∨ n = 2) ∧ (m = 0 ∨ m = 2))
+  | .accepted p, .accepted q => p = q
+  | .empty, .empty => True
+  | .malformed, .malformed => True
+  | _, _ => False
+
+theorem pmVoteVerified_rel (P : Params) {τ σ : State} (h : SRel τ σ) (bad : Bad) (v : PVote) (hr : v.round ≥ σ.pl.round) :
+    ERel2 SRel PMVote.sim (pmVoteVerified P τ bad v) (pmVoteVerified P σ bad v) := by
+  unfold pmVoteVerified
+  simp only []
+  have h0 := h.updRoot P 0
+  rw [h.pl] at h0 ⊢
+  split
+  · exact ⟨h0, Or.inl rfl⟩
+  split
+  · exact ⟨h0, trivial⟩
+  split
+  · exact ⟨h0, Or.inl rfl⟩
+  rcases (atRound_rel2 P σ.pl h0.rounds hr v.period (f := fun rr => rr.pvoteVerified σ.pl v)
+    (fun x y hxy => pvoteVerified_rrel hxy σ.pl v)).cases with ⟨e₁, e₂, h1, h2⟩ | ⟨a, b, u, w, h1, h2, hab, huw⟩
+  · rw [h1, h2]; trivial
+  · rw [h1, h2]; simp only []
+    have hs : SRel { pl := σ.pl, root := a } { pl := σ.pl, root := b } := SRel.mk rfl hab
+    cases u <;> cases w <;> simp only [PVRes.sim] at huw
+    · split
+      · refine ⟨hs, Or.inr ⟨?_, ?_⟩⟩ <;> split <;> simp
+      · refine ⟨hs, Or.inr ⟨?_, ?_⟩⟩ <;> split <;> simp
+    · obtain ⟨rfl, rfl⟩ := huw
+      split
+      · exact ⟨hs, Or.inl rfl⟩
+      · exact ⟨hs, rfl⟩
+
+theorem pmVotePresent_rel (P : Params) {τ σ : State} (h : SRel τ σ) (v : PVote) (hr : v.round ≥ σ.pl.round) :
+    ERel SRel (pmVotePresent P τ v) (pmVotePresent P σ v) := by
+  unfold pmVotePresent
+  simp only []
+  have h0 := h.updRoot P 0
+  rw [h.pl] at h0 ⊢
+  rcases (atRound_rel2 (S := Eq) P σ.pl h0.rounds hr v.period
+      (f := fun rr => rr.atPeriod σ.pl v.period 0 (fun pr => .ok (pr, pr.pvoteDup v.sender)))
+      (fun x y hxy => erel2_of_erel (atPeriod_rel hxy σ.pl _ 0 (fun u w huw => by
+        unfold PeriodR.pvoteDup; rw [huw.duplicate]; exact ERel.ok huw)))).cases with ⟨e₁, e₂, h1, h2⟩ | ⟨a', b', u, w, h1, h2, hab', huw⟩
+  · simp only [h1, h2]
+    split
+    · split
+      · exact ERel.err
+      · exact ERel.ok h0
+    · exact ERel.err
+  · subst huw
+    simp only [h1, h2]
+    have hs : SRel { pl := σ.pl, root := a' } { pl := σ.pl, root := b' } := SRel.mk rfl hab'
+    split
+    · split
+      · exact ERel.ok hs
+      · exact ERel.ok h0
+    · split
+      · exact ERel.ok hs
+      · exact ERel.ok hs
+
+theorem pmPayload_rel (P : Params) {τ σ : State} (h : SRel τ σ) (verified : Bool) (bad : Bad) (p : Payload) :
+    ERel SRel (pmPayload P τ verified bad p) (pmPayload P σ verified bad p) := by
+  unfold pmPayload
+  simp only []
+  have h0 := h.updRoot P 0
+  rw [h.pl] at h0 ⊢
+  have hpres : ∀ (r q : Nat), r ≥ σ.pl.round → ERel2 (fun a b : Root => E σ.pl.round a.rounds = E σ.pl.round b.rounds) Eq
+      (Root.atRound P σ.pl (τ.root.upd P σ.pl 0) r q (fun rr => .ok (rr.payloadPresent σ.pl p)))
+      (Root.atRound P σ.pl (σ.root.upd P σ.pl 0) r q (fun rr => .ok (rr.payloadPresent σ.pl p))) := by
+    intro r q hr
+    refine atRound_rel2 P σ.pl h0.rounds hr q (fun x y hxy => ?_)
+    obtain ⟨g1, g2⟩ := payloadPresent_rel hxy σ.pl p
+    exact ⟨g1, g2⟩
+  split
+  · split
+    · rcases (hpres σ.pl.round σ.pl.period (Nat.le_refl _)).cases with ⟨e₁, e₂, h1, h2⟩ | ⟨a, b, u, w, h1, h2, hab, huw⟩
+      · rw [h1, h2]; exact ERel.err
+      · rw [h1, h2]; subst huw; simp only []
+        split <;> exact ERel.ok (SRel.mk rfl hab)
+    · rcases (hpres (σ.pl.round + 1) 0 (by omega)).cases with ⟨e₁, e₂, h1, h2⟩ | ⟨a, b, u, w, h1, h2, hab, huw⟩
+      · rw [h1, h2]; exact ERel.err
+      · rw [h1, h2]; subst huw; simp only []
+        split <;> exact ERel.ok (SRel.mk rfl hab)
+  · split
+    · exact ERel.ok h0
+    split
+    · exact ERel.ok h0
+    rcases (atRound_rel2 (S := Eq) P σ.pl h0.rounds (Nat.le_refl _) σ.pl.period (f := fun rr => rr.payloadVerified σ.pl p)
+      (fun x y hxy => erel2_of_erel (payloadVerified_rel hxy σ.pl p))).cases with ⟨e₁, e₂, h1, h2⟩ | ⟨a, b, u, w, h1, h2, hab, huw⟩
+    · rw [h1, h2]; exact ERel.err
+    · rw [h1, h2]; subst huw; exact ERel.ok (SRel.mk rfl hab)
+
+/-! ### voteAggregator -/
+
+theorem voteFresh_round {pl : PlayerF} {r p s : Nat} (h : voteFresh pl r p s = true) : r ≥ pl.round := by
+  unfold voteFresh at h
+  split at h
+  · cases h
+  · rename_i hne
+    omega
+
+theorem vaFilterVote_rel (P : Params) {τ σ : State} (h : SRel τ σ) (r p s : Nat) (x : VoteTracker.Vote) :
+    ERel SRel (vaFilterVote P τ r p s x) (vaFilterVote P σ r p s x) := by
+  unfold vaFilterVote
+  rw [h.pl]
+  split
+  · exact ERel.ok h
+  rename_i hf
+  have hr : r ≥ σ.pl.round := voteFresh_round (by simpa using hf)
+  rcases (atRound_rel2 (S := Eq) P σ.pl h.rounds hr p
+    (f := fun rr => rr.atPeriod σ.pl p s (fun pr => pr.atStep s (fun sr => .ok (sr, sr.filter x.sender x.value))))
+    (fun a b hab => erel2_of_erel (atPeriod_rel hab σ.pl p s (fun u w huw => atStep_rel huw s _)))).cases
+    with ⟨e₁, e₂, h1, h2⟩ | ⟨a, b, u, w, h1, h2, hab, huw⟩
+  · rw [h1, h2]; exact ERel.err
+  · rw [h1, h2]; subst huw; exact ERel.ok (SRel.mk rfl hab)
+
+theorem deliverVote_rel (P : Params) {τ σ : State} (h : SRel τ σ) {r : Nat} (hr : r ≥ σ.pl.round) (p s : Nat) (x : VoteTracker.Vote) :
+    ERel SRel (deliverVote P τ r p s x) (deliverVote P σ r p s x) := by
+  unfold deliverVote
+  rw [h.pl]
+  rcases (atRound_rel2 (S := Eq) P σ.pl h.rounds hr p (f := fun rr => rr.voteAccepted P σ.pl r p s x)
+    (fun a b hab => erel2_of_erel (voteAccepted_rel hab P σ.pl r p s x))).cases with ⟨e₁, e₂, h1, h2⟩ | ⟨a, b, u, w, h1, h2, hab, huw⟩
+  · rw [h1, h2]; exact ERel.err
+  · rw [h1, h2]; subst huw; exact ERel.ok (SRel.mk rfl hab)
+
+theorem vaFilterVote_true {P : Params} {σ σ' : State} {r p s : Nat} {x : VoteTracker.Vote}
+    (h : vaFilterVote P σ r p s x = .ok (σ', true)) : voteFresh σ.pl r p s = true ∧ σ'.pl = σ.pl := by
+  unfold vaFilterVote at h
+  split at h
+  · simp at h
+  rename_i hf
+  split at h
+  · cases h
+  simp only [Except.ok.injEq, Prod.mk.injEq] at h
+  exact ⟨by simpa using hf, by rw [← h.1]⟩
+
+theorem vaVote_rel (P : Params) {τ σ : State} (h : SRel τ σ) (verified : Bool) (bad : Bad) (r p s : Nat) (x : VoteTracker.Vote) :
+    ERel SRel (vaVote P τ verified bad r p s x) (vaVote P σ verified bad r p s x) := by
+  unfold vaVote
+  simp only []
+  have h0 := h.updRoot P 0
+  rw [h.pl] at h0 ⊢
+  split
+  · split
+    · exact ERel.ok h0
+    rcases (vaFilterVote_rel P h0 r p s x).cases with ⟨e₁, e₂, h1, h2⟩ | ⟨a, b, u, h1, h2, hab⟩
+    · rw [h1, h2]; exact ERel.err
+    · rw [h1, h2]; exact ERel.ok hab
+  split
+  · exact ERel.ok h0
+  split
+  · exact ERel.ok h0
+  split
+  · exact ERel.ok h0
+  rcases (vaFilterVote_rel P h0 r p s x).cases with ⟨e₁, e₂, h1, h2⟩ | ⟨a, b, u, h1, h2, hab⟩
+  · rw [h1, h2]; exact ERel.err
+  · rw [h1, h2]
+    cases u with
+    | false => exact ERel.ok hab
+    | true =>
+      simp only []
+      obtain ⟨hfresh, hbpl⟩ := vaFilterVote_true h2
+      have hr : r ≥ b.pl.round := by rw [hbpl]; exact voteFresh_round hfresh
+      rcases (deliverVote_rel P hab hr p s x).cases with ⟨e₁, e₂, g1, g2⟩ | ⟨a', b', ev, g1, g2, hab'⟩
+      · rw [g1, g2]; exact ERel.err
+      · rw [g1, g2]; simp only []
+        rw [hab'.pl]
+        split
+        · exact ERel.ok hab'
+        split
+        · exact ERel.ok hab'
+        split
+        · exact ERel.ok hab'
+        · exact ERel.err
+
+theorem deliverVote_pl {P : Params} {σ σ' : State} {r p s : Nat} {x : VoteTracker.Vote} {ev : Thresh}
+    (h : deliverVote P σ r p s x = .ok (σ', ev)) : σ'.pl = σ.pl := by
+  unfold deliverVote at h
+  split at h
+  · cases h
+  simp only [Except.ok.injEq, Prod.mk.injEq] at h
+  rw [← h.1]
+
+theorem deliverAll_rel (P : Params) (r p s : Nat) : ∀ (vs : List VoteTracker.Vote) {τ σ : State} (acc : Thresh),
+    SRel τ σ → r ≥ σ.pl.round → ERel SRel (deliverAll P r p s τ vs acc) (deliverAll P r p s σ vs acc) := by
+  intro vs
+  induction vs with
+  | nil => intro τ σ acc h _; simp only [deliverAll]; exact ERel.ok h
+  | cons x rest ih =>
+    intro τ σ acc h hr
+    simp only [deliverAll]
+    rcases (deliverVote_rel P h hr p s x).cases with ⟨e₁, e₂, g1, g2⟩ | ⟨a, b, ev, g1, g2, hab⟩
+    · rw [g1, g2]; exact ERel.err
+    · rw [g1, g2]; simp only []
+      exact ih _ hab (by rw [deliverVote_pl g2]; exact hr)
+
+theorem bundleFresh_round {pl : PlayerF} {r p s : Nat} (h : bundleFresh pl r p s = true) : r = pl.round := by
+  unfold bundleFresh at h
+  split at h
+  · cases h
+  · rename_i hne; exact (Decidable.byContradiction (fun hc => hne (fun heq => hc heq.symm)))
+
+theorem vaBundle_rel (P : Params) {τ σ : State} (h : SRel τ σ) (verified : Bool) (bad : Bad) (r p s value : Nat)
+    (votes : List (Nat × Nat)) (eqs : List VoteTracker.EqVote) :
+    ERel SRel (vaBundle P τ verified bad r p s value votes eqs) (vaBundle P σ verified bad r p s value votes eqs) := by
+  unfold vaBundle
+  simp only []
+  have h0 := h.updRoot P 0
+  rw [h.pl] at h0 ⊢
+  split
+  · exact ERel.ok h0
+  split
+  · exact ERel.ok h0
+  split
+  · exact ERel.ok h0
+  split
+  · exact ERel.ok h0
+  split
+  · exact ERel.ok h0
+  rename_i hf
+  have hr : r ≥ σ.pl.round := by
+    have := bundleFresh_round (pl := σ.pl) (r := r) (p := p) (s := s) (by simpa using hf)
+    omega
+  rcases (deliverAll_rel P r p s _ {} h0 hr).cases with ⟨e₁, e₂, g1, g2⟩ | ⟨a, b, ev, g1, g2, hab⟩
+  · rw [g1, g2]; exact ERel.err
+  · rw [g1, g2]; simp only []
+    split
+    · exact ERel.ok hab
+    · exact ERel.ok hab
 
 end AlgoVerif.Lemmas.Player
